@@ -5,6 +5,7 @@ import concurrent.futures
 import json
 import os
 import time
+import zlib
 
 import lib
 
@@ -18,7 +19,7 @@ PARTS = {
 
 TIERS = {
     "quick": dict(strlen=2, rich="FALSE", random_jobs=4, bases=60, edits=12, verify_every=6),
-    "thorough": dict(strlen=3, rich="TRUE", random_jobs=12, bases=700, edits=16, verify_every=4),
+    "thorough": dict(strlen=3, rich="TRUE", random_jobs=8, bases=300, edits=16, verify_every=4),
 }
 
 ASSUMPTIONS = [
@@ -67,6 +68,18 @@ def render(fl):
     return rec(0)[0]
 
 
+def outside(fl):
+    """The nodes of a flat play that are not inside its top-level 'hosts' / 'vars' entries (bookkeeping for
+    partitioning, no decision depends on it)."""
+    out, skip = [], False
+    for nd in fl[1:]:
+        if nd["d"] == 1:
+            skip = nd["kt"] == "str" and "".join(chr(c) for c in nd["k"]) in ("hosts", "vars")
+        if not skip:
+            out.append(nd)
+    return json.dumps(out, sort_keys=True, separators=(",", ":"))
+
+
 def differing(texts):
     """Cut the common prefix / suffix of the renderings (message only)."""
     if len(texts) < 2:
@@ -76,6 +89,31 @@ def differing(texts):
     a = a[:max(0, a.rfind(", ") + 2)]
     b = b[b.find(", "):] if ", " in b else ""
     return ["..." + t[len(a):len(t) - len(b)] + "..." for t in texts]
+
+
+def binding_selftest(classes, plays, mk):
+    """R5: corrupted copies of recorded traces must be rejected, with the right clause."""
+    ds = [d for d in sorted(classes) if all(e["out"] == "ok" for e in classes[d])
+          and len(set(e["p"] for e in classes[d])) == 1]
+    if len(ds) < 3:
+        raise lib.MachineryError("self-test: not enough digest classes")
+    a, b, c = ds[0], ds[1], ds[2]
+    moved = [dict(e, digest=a) for e in classes[b]]                      # a foreign play claims digest a
+    flipped = [dict(classes[c][0], out="err")] + classes[c][1:]           # an accepted play reported as refused
+    nodig = [dict(classes[c][0], digest="")]                              # accepted without a digest
+    split = [classes[a][0], dict(classes[a][0], digest="f" * 64)]         # one play, two digests
+    tests = [(mk("selftest/collision", "class", classes[a] + moved), "Injective.collision"),
+             (mk("selftest/flipped", "class", flipped), "Table:"),
+             (mk("selftest/nodigest", "class", nodig), "Table:"),
+             (mk("selftest/split", "reps", split, end=True), "Function.split"),
+             (mk("selftest/clean", "class", classes[a]), None)]
+    val = lib.validate_traces("PlaybookTrace", "PlaybookTrace.cfg", [t for t, _ in tests], jobs=1)
+    got = dict((r["id"], r["clause"]) for r in val["rejected"])
+    for t, want in tests:
+        g = got.get(t["id"])
+        if (want is None and g is not None) or (want is not None and not (g or "").startswith(want)):
+            raise lib.MachineryError("self-test: corrupted trace %s gave %r, expected %r" % (t["id"], g, want))
+    return "%d corrupted traces rejected, clean copy accepted" % (len(tests) - 1)
 
 
 def run(prop, tier):
@@ -132,6 +170,18 @@ def run(prop, tier):
             e["p"] = local[e["p"]]
             events.append(e)
     print("timing: driver %.1fs, %d plays, %d observations" % (time.time() - t1, len(plays), len(events)))
+    # vacuity: every route / build / outcome the check relies on was really exercised
+    reach = dict(
+        yaml=sum(1 for e in events if e["build"] == "yaml" and e["digest"]),
+        commented=sum(1 for e in events if e["build"] == "commented" and e["digest"]),
+        direct=sum(1 for e in events if e["via"] == "exclude" and e["digest"]),
+        refused=sum(1 for e in events if e["out"] == "err" and not e["digest"]),
+        revoked=sum(1 for e in events if e["via"] == "verify" and e["out"] == "err" and e["digest"] in e["revoked"]),
+        not_revoked=sum(1 for e in events if e["via"] == "verify" and e["out"] == "ok"),
+    )
+    for k, n in reach.items():
+        if n == 0:
+            raise lib.MachineryError("vacuity: no observation of kind %r was recorded" % k)
 
     # ---- (3) traces: one per digest class, one per non-accepted play, one of class representatives
     t1 = time.time()
@@ -160,13 +210,31 @@ def run(prop, tier):
         traces.append(mk("class/" + d[:16], "class", classes[d]))
     for p in sorted(noacc):
         traces.append(mk("noacc/%d" % p, "class", noacc[p]))
-    reps = mk("reps", "reps", [classes[d][0] for d in sorted(classes)], end=True)
+    # class representatives: equal Excl implies equal content outside the top-level hosts / vars entries (law
+    # OnlyHostsVars), so the representatives can be partitioned by that content without separating any pair
+    # that could have the same Excl; each partition is one "reps" trace
+    nparts = max(1, (len(classes) + 2999) // 3000)
+    buckets = {}
+    for d in sorted(classes):
+        e = classes[d][0]
+        buckets.setdefault(zlib.crc32(outside(plays[e["p"]]).encode()) % nparts, []).append(e)
+    reps = [mk("reps/%d" % k, "reps", buckets[k], end=True) for k in sorted(buckets)]
     byid = dict((t["id"], t) for t in traces)
-    byid["reps"] = reps
-    # the representatives trace is the long one: it goes first, the class traces fill the other JVMs
-    val = lib.validate_traces("PlaybookTrace", "PlaybookTrace.cfg", [reps] + traces, jobs=jobs)
+    byid.update((t["id"], t) for t in reps)
+    if len(reps) <= 2:
+        # the representatives traces are the long ones: they go first, the class traces fill the other JVMs
+        val = lib.validate_traces("PlaybookTrace", "PlaybookTrace.cfg", reps + traces, jobs=jobs)
+    else:
+        val = lib.merge_val(
+            lib.validate_traces("PlaybookTrace", "PlaybookTrace.cfg", traces, jobs=jobs,
+                                chunk=max(1, min(1500, (len(traces) + jobs - 1) // jobs))),
+            lib.validate_traces("PlaybookTrace", "PlaybookTrace.cfg", reps, jobs=jobs, chunk=1))
     print("timing: validation %.1fs (%d traces, %d events, %d JVMs)"
           % (time.time() - t1, val["traces"], val["events"], val["jvms"]))
+
+    selftest = None
+    if tier == "thorough":
+        selftest = binding_selftest(classes, plays, mk)
 
     # ---- (4) verdict ------------------------------------------------------
     verdict = lib.Verdict(prop, tier)
@@ -213,6 +281,7 @@ def run(prop, tier):
         extra=dict(plays_emitted_by_tlc=len(flats), plays_total=len(plays), digest_classes=len(classes),
                    classes_with_several_plays=len([d for d in classes if len(set(e["p"] for e in classes[d])) > 1]),
                    plays_never_accepted=len(noacc), random_plays=len([o for o in origin if o != "tlc"]),
+                   reached=reach, binding_selftest=selftest,
                    laws_checked_on_model=["Injective (ASSUME)"] + sorted(set(sum(PARTS.values(), []))),
                    exhaustive=False))
     return verdict.finish(ev)
